@@ -296,7 +296,7 @@ impl PpcRegister {
 
 //@ fn impl PpcRegister :: fn scalar
 //@ spec
-    ensures /*@scalar*/ r == named_scalar(self.name@, self.bits),
+    ensures /*@scalar*/ r == named_scalar(self.name@, self.bits), /*@name*/ r.name@ == self.name@,
 //@ enter
     proof { broadcast use crate::strmap::axiom_into_string_str; }
 //@ end
